@@ -4,8 +4,8 @@ import I18n.Model.CFmtRe
 /-!
 # The model's scanner IS the first match of the live parse tree of `_directive_re`
 
-`canonRe` is the canonical form (`ReKit.norm`) of the pattern the scanner was written against; `live_norm` checks, by
-kernel evaluation, that the live tree dumped by the translator has that canonical form; the step lemmas below read
+`canonRe` is the canonical form (`ReKit.norm`) of the pattern the scanner was written against (`Lemmas.CFmtReLive.live_norm`
+checks, by kernel evaluation, that the live tree dumped by the translator has that canonical form); the step lemmas below read
 `canonRe` piece by piece under `bt` (every backtracking point is closed either by a first-set argument — `fails_of_first`,
 decided by `fsDisjointB` — or, for the `index` group, by following the scanner through `digits $`).
 -/
@@ -43,9 +43,6 @@ def litRe : Re := .group 1 (.seq notPctRe (.star notPctRe))
 def tailRe : Re := .seq (.opt (idxRe 3)) (.seq (.group 4 (.star flagRe)) (.seq widthRe (.seq precRe bodyRe)))
 def dirRe : Re := .group 2 (.seq (lit 37) tailRe)
 def canonRe : Re := .alt litRe dirRe
-
-/-- the live tree, as dumped on this run, has the canonical form the proofs below are about -/
-theorem live_norm : norm I18n.Generated.CFmtRe.directiveRe = canonRe := by decide +kernel
 
 /-! ## the classes of the canonical tree are the model's character tests -/
 section classes
@@ -806,12 +803,5 @@ theorem matchAt_canon (cs : List Char) (pos : Nat) :
       simp [scanItem, hc', Item.render, itemCaps]
 
 end steps
-
-/-- **the model's scanner IS the first match of the LIVE parse tree** (through `norm`): end position and group spans -/
-theorem matchAt_live (db : CharDB) (cs : List Char) (pos : Nat) :
-    matchAt db I18n.Generated.CFmtRe.directiveRe cs pos =
-      (scanItem cs).map (fun p => (⟨p.2, pos + p.1.render.length, itemCaps pos p.1⟩ : St)) := by
-  rw [← matchAt_norm, live_norm]
-  exact matchAt_canon db cs pos
 
 end I18n.CFmtRe
